@@ -1,3 +1,160 @@
-"""placeholder"""
-def read_guards(mod, fn):
-    return []
+"""Decoder rules shared by C08 (U1-U4), C10 (S1-S4), C16 (N3), C17 (M1-M5)."""
+from __future__ import annotations
+
+import ast
+from typing import Any, Dict, List, Optional, Set, Tuple
+
+from ..absint import Interp, Path
+from ..cfg import CFG, Node, normal_edge, own_nodes
+from ..fieldloop import val_text
+from ..src import AnalysisError, M_INIT, Module, fold, _Unfoldable
+from ..sym import A, C, N, OP, Sym, dotted, from_ast, show, simplify, subst, walk, contains
+
+VALID_WIRE = (0, 1, 2, 5)
+GROUP_WIRE = (3, 4)
+INVALID_WIRE = (6, 7)
+
+
+# ---------------------------------------------------------------------------
+# generic: stream reads and their length guards
+
+
+def _names_loaded(node: ast.AST) -> Set[str]:
+    return {n.id for n in own_nodes(node) if isinstance(n, ast.Name) and isinstance(n.ctx, ast.Load)}
+
+
+def _names_stored(node: ast.AST) -> Set[str]:
+    out = set()
+    for n in own_nodes(node):
+        if isinstance(n, ast.Name) and isinstance(n.ctx, ast.Store):
+            out.add(n.id)
+    return out
+
+
+def _read_sites(fn: ast.AST) -> List[Tuple[ast.Assign, str, ast.AST]]:
+    """assignments `X = <stream>.read(N)` -> (stmt, X, N-expression)"""
+    out = []
+    for st in ast.walk(fn):
+        if isinstance(st, ast.Assign) and len(st.targets) == 1 and isinstance(st.targets[0], ast.Name) \
+                and isinstance(st.value, ast.Call) and isinstance(st.value.func, ast.Attribute) \
+                and st.value.func.attr == "read" and len(st.value.args) == 1:
+            out.append((st, st.targets[0].id, st.value.args[0]))
+    return out
+
+
+def _short_polarity(test: ast.AST, var: str, nexpr: ast.AST, consts: Dict[str, Any]) -> Optional[bool]:
+    """If `test` is a recognised length test of `var` against the requested size,
+    return the truth value of the test on a SHORT read; else None."""
+    ntext = ast.unparse(nexpr)
+    try:
+        nconst = fold(nexpr, consts)
+    except _Unfoldable:
+        nconst = None
+
+    def res(nm: str):
+        return None
+
+    t = simplify(from_ast(test))
+    neg = False
+    while t[0] == "op" and t[1] == "not":
+        neg = not neg
+        t = t[2]
+    ln = ("call", N("len"), (N(var),), ())
+    nsym = simplify(from_ast(nexpr))
+    val: Optional[bool] = None
+    if t == N(var) and nconst == 1:
+        val = False            # truthy(var) is False on an empty (short) read of 1 byte
+    elif t[0] == "op" and t[1] == "==" and t[2] == ln and t[3] == nsym:
+        val = False            # len(var) == N is False when short
+    elif t[0] == "op" and t[1] == "==" and t[2] == nsym and t[3] == ln:
+        val = False
+    elif t[0] == "op" and t[1] == "<" and t[2] == ln and t[3] == nsym:
+        val = True             # len(var) < N is True when short
+    elif t[0] == "op" and t[1] == "<" and t[2] == nsym and t[3] == ln:
+        return None            # N < len(var): never true for a read(N); not a short test
+    elif t[0] == "op" and t[1] == "==" and t[2] == ln and t[3] == C(0) and nconst == 1:
+        val = True
+    elif t[0] == "op" and t[1] == "==" and t[2] == N(var) and t[3] == C(b"") and nconst == 1:
+        val = True
+    elif t == ln and nconst == 1:
+        val = False
+    if val is None:
+        return None
+    return (not val) if neg else val
+
+
+def read_guards(mod: Module, fn: ast.AST) -> List[Dict[str, Any]]:
+    """For every `X = stream.read(N)`: is every use of X preceded, on every path,
+    by a length test whose short branch raises?"""
+    g = CFG(fn, implicit_exc=False)
+    out = []
+    for st, var, nexpr in _read_sites(fn):
+        rnodes = g.nodes_for(st)
+        rec: Dict[str, Any] = {"var": var, "line": st.lineno, "n": ast.unparse(nexpr), "guarded": False, "why": "", "exc": set(), "stmt": st}
+        # candidate guards: test nodes whose condition is a recognised short test of var
+        guards: Dict[int, bool] = {}
+        for nd in g.nodes:
+            if nd.kind == "test" and isinstance(nd.stmt, ast.If):
+                pol = _short_polarity(nd.stmt.test, var, nexpr, mod.consts)
+                if pol is not None:
+                    guards[nd.id] = pol
+        ok = True
+        why = ""
+        for rn in rnodes:
+            # region of this read: nodes reachable before var is re-assigned
+            kills = {nd.id for nd in g.nodes if nd.stmt is not None and nd.kind in ("stmt", "loop") and nd.id != rn.id and var in _names_stored(nd.stmt)} | {rn.id}
+            region = g.reach_from_successors(rn.id, avoid=kills, labels=normal_edge)
+            uses = [g.nodes[i] for i in region if g.nodes[i].stmt is not None and g.nodes[i].kind in ("stmt", "test", "loop")
+                    and var in _names_loaded(g.nodes[i].stmt) and i not in guards]
+            if not uses:
+                continue
+            gset = set(guards) & region
+            for u in uses:
+                if not g.must_pass(rn.id, u.id, gset | kills - {u.id}, labels=normal_edge) or not gset:
+                    ok = False
+                    why = f"use at line {u.line} reachable without a length test of `{var}` against {rec['n']}"
+                    break
+            if not ok:
+                break
+            # the short branch of each guard must end in raise without using var / yielding / returning
+            for gid in gset:
+                short_label = "true" if guards[gid] else "false"
+                starts = [m for m, lab in g.succ[gid] if lab == short_label]
+                reach = g.reachable(starts, avoid=kills, labels=normal_edge)
+                bad = [g.nodes[i] for i in reach if i == g.exit.id or (g.nodes[i].stmt is not None and g.nodes[i].kind == "stmt" and (
+                    var in _names_loaded(g.nodes[i].stmt) or any(isinstance(x, (ast.Yield, ast.YieldFrom)) for x in own_nodes(g.nodes[i].stmt))))]
+                # nodes after which the loop continues with the next read are fine only if they raise first
+                leaves_loop = any(i in kills for i in g.reachable(starts, labels=normal_edge) if i != gid) and False
+                raises = [g.nodes[i] for i in reach if isinstance(g.nodes[i].stmt, ast.Raise)]
+                if bad or not raises:
+                    ok = False
+                    why = f"short-read branch of the test at line {g.nodes[gid].line} does not raise"
+                    break
+                # does any path from the short branch escape without raising (falls back into the loop)?
+                esc = g.reachable(starts, avoid={r.id for r in raises}, labels=normal_edge)
+                if g.exit.id in esc or any(k in esc for k in kills):
+                    ok = False
+                    why = f"short-read branch of the test at line {g.nodes[gid].line} can continue without raising"
+                    break
+                for r in raises:
+                    e = r.stmt.exc  # type: ignore[union-attr]
+                    if e is not None:
+                        rec["exc"].add(ast.unparse(e.func if isinstance(e, ast.Call) else e))
+            if not ok:
+                break
+        rec["guarded"] = ok
+        rec["why"] = why
+        out.append(rec)
+    return out
+
+
+def slice_sites(fn: ast.AST) -> List[Tuple[ast.stmt, ast.Subscript]]:
+    """payload slices value[i : i + N] / value[i : j] taken from a buffer inside a decode loop"""
+    out = []
+    for st in ast.walk(fn):
+        if isinstance(st, (ast.Assign, ast.AugAssign, ast.Expr)):
+            for n in own_nodes(st):
+                if isinstance(n, ast.Subscript) and isinstance(n.slice, ast.Slice) and n.slice.lower is not None and n.slice.upper is not None \
+                        and isinstance(n.ctx, ast.Load):
+                    out.append((st, n))
+    return out
